@@ -5,4 +5,5 @@ import DafRel.Props.C08
 #print axioms DafRel.Props.C08.sql_compile_never_fails
 #print axioms DafRel.Props.C08.sql_payload_never_fails
 #print axioms DafRel.Props.C08.conformed_tree_compiles
+#print axioms DafRel.Props.C08.conformed_tree_compiles_of_ready_input
 #print axioms DafRel.Props.C08.accepted_sql_history_compiles
